@@ -1,6 +1,7 @@
 """
 C18 - periodic table data are complete and mutually consistent (finite, enumerated completely).  DESIGN 2/C18.
 """
+import os
 import re
 import struct
 
@@ -25,7 +26,57 @@ assert len(SYMBOLS) == 118
 
 
 def shards(tier, seed):
-    return [list(range(z, min(z + 8, 119))) for z in range(1, 119, 8)]
+    return [list(range(z, min(z + 8, 119))) for z in range(1, 119, 8)] + [['cold', k] for k in range(len(COLD_FIRST))]
+
+
+# the lookup tables are built lazily on first use and shared by all element classes: whichever public call comes first in a fresh
+# interpreter, number <-> symbol <-> class lookups must afterwards work for all 118 elements and be mutually inverse
+COLD_FIRST = ["Element.from_atomic_number(6)", "C.from_atomic_number(8)", "smiles('CCO').atom(1).from_atomic_number(8)",
+              "Element.from_symbol('Fe')", "Og.from_symbol('H')", "C().from_symbol('N')", "QueryElement.from_atomic_number(7)",
+              "QueryElement.from_symbol('Cl')", "smarts('[C,N]')", "DynamicElement.from_atomic_number(6)"]
+COLD_SCRIPT = '''
+import sys, json
+sys.path.insert(0, %r)
+from vf.boot import boot
+boot()
+from chython import smiles, smarts
+from chython.periodictable import Element, QueryElement, DynamicElement, C, Og
+out = {'first': None, 'bad': []}
+try:
+    %s
+except Exception as e:
+    out['first'] = type(e).__name__ + ': ' + str(e)
+SYM = %r
+for cls in (Element, QueryElement, DynamicElement):
+    for z, s in enumerate(SYM, 1):
+        try:
+            a, b = cls.from_atomic_number(z), cls.from_symbol(s)
+            if a is not b or a.__name__.replace('Query', '').replace('Dynamic', '') != s or a.atomic_number.fget(None) != z:
+                out['bad'].append([cls.__name__, z, s, a.__name__, b.__name__])
+        except Exception as e:
+            out['bad'].append([cls.__name__, z, s, type(e).__name__, str(e)[:60]])
+print(json.dumps(out))
+'''
+
+
+def check_cold(k, rec):
+    import json
+    import subprocess
+    import sys
+    from ..boot import VERIF
+    first = COLD_FIRST[k]
+    p = subprocess.run([sys.executable, '-c', COLD_SCRIPT % (VERIF, first, list(SYMBOLS))], capture_output=True, text=True, timeout=300,
+                       env=dict(os.environ, PYTHONHASHSEED='0'))
+    if p.returncode:
+        raise HarnessError(f'cold-lookup worker failed: {p.stderr[-400:]}')
+    out = json.loads(p.stdout.strip().splitlines()[-1])
+    rec.count('cold-lookup-orders')
+    rec.nt(('cold', first))
+    if out['first']:
+        rec.fail('lookup', f'fresh interpreter, first call {first}: raised {out["first"]}', sig='first-call')
+    if out['bad']:
+        rec.fail('lookup', f'fresh interpreter, first call {first}: {len(out["bad"])} of 354 number/symbol lookups wrong afterwards, e.g. '
+                           f'{out["bad"][:3]}', sig='after-first-call')
 
 
 def _pyx_table(path, name):
@@ -37,6 +88,8 @@ def _pyx_table(path, name):
 
 
 def check_case(z, rec):
+    if isinstance(z, list) or z == 'cold':
+        return
     from chython import MoleculeContainer
     from chython.periodictable import Element
     import chython.periodictable as pt
@@ -257,4 +310,6 @@ def _decode_bits(b1, b2, b3):
 
 
 def run_shard(shard, tier, seed):
+    if shard and shard[0] == 'cold':
+        return direct_run(ID, [shard[1]], check_cold)
     return direct_run(ID, shard, check_case)
